@@ -17,3 +17,21 @@ Ltac close_case := first [syn_refl | solve [repeat f_equal; syn_refl]
 
 Definition swapXY (cpu : CPU) : CPU := s_IY (s_IX cpu (g_IY cpu)) (g_IX cpu).
 Definition writes_ir (i : instr) : bool := match i with LD_I_A | LD_R_A => true | _ => false end.
+
+(* C10: the fields of the CPU record that are not machine state proper *)
+Definition erase (cpu : CPU) : CPU := s_HALT (s_BreakPoints cpu None) false.
+
+(* C12: Go run-time panics are EvPanic events; a memory is safe when reading through it never logs one *)
+Definition is_panic (e : event) : bool := match e with EvPanic => true | _ => false end.
+Definition npanics (l : list event) : nat := length (filter is_panic l).
+Definition mem_safe (m : MemRef) : Prop := forall w a, npanics (trace (fst (wget w m a))) = npanics (trace w).
+Lemma wset_safe m w a v : npanics (trace (wset w m a v)) = npanics (trace w).
+Proof. destruct m as [|d]; unfold wset; cbv_struct; [reflexivity|]. destruct (_ && _); reflexivity. Qed.
+Lemma user_safe : mem_safe UserMem.
+Proof. intros w a. reflexivity. Qed.
+Lemma npanics_cons e l : npanics (e :: l) = if is_panic e then S (npanics l) else npanics l.
+Proof. unfold npanics. cbn [filter]. destruct (is_panic e); reflexivity. Qed.
+Ltac panic_close Hs :=
+  cbv_struct;
+  repeat first [ rewrite Hs | rewrite wset_safe | rewrite npanics_cons; cbn [is_panic] ];
+  reflexivity.
